@@ -52,7 +52,8 @@ pub fn gen_lookup_op(rng: &mut Rng, spec: &crate::world::WorldSpec, alphabet: us
 
 pub fn gen_case(seed: u64, idx: u64, uni: &UniCfg) -> Case {
     let mut rng = Rng::new(rng::derive(seed, "C01", idx));
-    let wp = gen::WorldParams::swarm(&mut rng);
+    let mut wp = gen::WorldParams::swarm(&mut rng);
+    wp.long_chains = true;
     let world = gen::gen_world(&mut rng, &wp);
     let mut c = Case::new("C01", "quiescent", uni.clone());
     let ops: Vec<OpSpec> = (0..OPS_PER_RUN).map(|_| gen_lookup_op(&mut rng, &world, wp.alphabet)).collect();
